@@ -1,6 +1,10 @@
 ------------------------------- MODULE CoreMC -------------------------------
 (* constant definitions for the bounded configurations of Core.tla *)
 EXTENDS Core
+Order1 == <<"A">>
+Hooks_none1 == ("A" :> {})
+Opts_plain == {[os |-> FALSE, ac |-> FALSE]}
+Opts_all == {[os |-> FALSE, ac |-> FALSE], [os |-> TRUE, ac |-> FALSE], [os |-> FALSE, ac |-> TRUE]}
 Order2 == <<"A", "B">>
 Order3 == <<"A", "B", "C">>
 Hooks_life == ("A" :> {"eval", "start", "stop"}) @@ ("B" :> {"stop"})
